@@ -122,6 +122,8 @@ int read_elf(
     return -1;
   }
 
+  const uint64_t file_length = file.get_file_length();
+
   memset(e_ident, 0, 16);
   n = file.get_bytes(e_ident, 16);
 
@@ -358,6 +360,16 @@ int read_elf(
       }
 
       long marker = file.tell();
+
+      // A section can't be bigger than the file it is stored in.
+      if (elf_shdr.sh_offset > file_length ||
+          elf_shdr.sh_size > file_length - elf_shdr.sh_offset)
+      {
+        printf("Error: ELF section %s is outside of the file.\n", name);
+        file.close_file();
+        return -1;
+      }
+
       file.set(elf_shdr.sh_offset);
 
       uint32_t i;
@@ -375,6 +387,15 @@ int read_elf(
     if (elf_shdr.sh_type == SHT_SYMTAB && symbols != NULL)
     {
       long marker = file.tell();
+
+      if (elf_shdr.sh_offset > file_length ||
+          elf_shdr.sh_size > file_length - elf_shdr.sh_offset)
+      {
+        printf("Error: ELF symbol table is outside of the file.\n");
+        file.close_file();
+        return -1;
+      }
+
       file.set(elf_shdr.sh_offset);
 
       int sym_size = is_32_bit ? 16 : 24;
